@@ -255,6 +255,7 @@ impl Track {
     }
     pub fn play_from(&mut self, timepos: isize) {
         let mut events: Vec<Event> = vec![];
+        let mut events_head: Vec<Event> = vec![]; // events before timepos (placed before the remaining events)
         let mut cc_values: Vec<isize> = vec![];
         let mut voice: isize = -1;
         let mut ch: isize = 0;
@@ -264,7 +265,11 @@ impl Track {
                 EventType::Meta | EventType::SysEx => {
                     let mut e2 = e.clone();
                     e2.time -= timepos;
-                    if e2.time < 0 { e2.time = 0; }
+                    if e2.time < 0 {
+                        e2.time = 0;
+                        events_head.push(e2);
+                        continue;
+                    }
                     events.push(e2);
                 },
                 EventType::NoteOn => {
@@ -287,7 +292,7 @@ impl Track {
                     let mut e2 = e.clone();
                     e2.time -= timepos;
                     if e2.time < 0 {
-                        cc_values[e2.v1 as usize] = e2.v2;
+                        if 0 <= e2.v1 && e2.v1 < 128 { cc_values[e2.v1 as usize] = e2.v2; }
                         ch = e2.channel;
                         continue;
                     }
@@ -302,13 +307,14 @@ impl Track {
         // add cc
         for no in 0..128 {
             if cc_values[no] < 0 { continue; }
-            events.push(Event::cc(0, ch, no as isize, cc_values[no as usize]));
+            events_head.push(Event::cc(0, ch, no as isize, cc_values[no as usize]));
         }
         // voice
         if voice >= 0 {
-            events.push(Event::voice(0, ch, voice));
+            events_head.push(Event::voice(0, ch, voice));
         }
-        self.events = events;
+        events_head.append(&mut events);
+        self.events = events_head;
     }
     pub fn calc_v_on_time(&mut self, def: isize) -> isize {
         let start_time = self.v_on_time_start;
